@@ -6,7 +6,7 @@
    order, a pure function of the tree) chooses for k. The second part is exactly what failed before request paths got a map
    of their own: an entry written for the request './pkg/lib' (a directory with its own package.json) answered the probe
    that the "main": "lib" of ./pkg makes with loadModule('<dir>/pkg/lib'). *)
-From GN Require Import Common.Base Model.Paths Model.Require Spec.NodeResolve Proofs.RequireInv Proofs.RequireExtra Proofs.ResolveProofs.
+From GN Require Import Common.Base Model.Paths Model.Require Spec.NodeResolve Proofs.RequireInv Proofs.RequireExtra Proofs.ResolveProofs Proofs.PathsCanon.
 Open Scope Z_scope.
 
 Section Sel.
@@ -94,11 +94,24 @@ Section Open.
 Variable rq : rstate -> path -> zs -> rstate * res.
 Hypothesis Hrq : forall st d r, SInv st -> sgood st (fst (rq st d r)).
 
+Lemma run_lazies_sgood reqs : forall st f, SInv st -> sgood st (fst (run_lazies rq st f reqs)).
+Proof.
+  induction reqs as [|r reqs IH]; intros st f HS; cbn [run_lazies].
+  - apply sgood_refl. exact HS.
+  - pose proof (Hrq st (pdir (parse f)) r HS) as Hg. destruct (rq st (pdir (parse f)) r) as [st1 x]. cbn [fst] in Hg.
+    destruct Hg as [HS1 E1].
+    set (st2 := log_event st1 f r (outcome_of st1 x)).
+    assert (G2 : sgood st st2).
+    { split; [eapply sinv_same_core; [apply sc_log_event|exact HS1]|]. eapply ext_trans; [exact E1|apply same_core_ext, sc_log_event]. }
+    assert (Hcont : sgood st (fst (run_lazies rq st2 f reqs))) by (eapply sgood_trans; [exact G2|apply IH; exact (proj1 G2)]).
+    destruct x; cbn [fst]; try exact Hcont. exact G2.
+Qed.
+
 Lemma run_body_sgood prog : forall st m file, SInv st -> sgood st (fst (run_body rq st m file prog)).
 Proof.
   induction prog as [|i prog IH]; intros st m file HS; cbn [run_body].
   - apply sgood_refl. exact HS.
-  - destruct i as [|k v|r catch|t].
+  - destruct i as [|k v|r catch|t|r|t].
     + eapply sgood_trans; [apply sgood_sc; [apply sc_bump|exact HS]|]. apply IH. eapply sinv_same_core; [apply sc_bump|exact HS].
     + eapply sgood_trans; [apply sgood_sc; [apply sc_set_exp|exact HS]|]. apply IH. eapply sinv_same_core; [apply sc_set_exp|exact HS].
     + pose proof (Hrq st (pdir (parse file)) r HS) as Hg. destruct (rq st (pdir (parse file)) r) as [st1 x]. cbn [fst] in Hg.
@@ -109,6 +122,20 @@ Proof.
       assert (Hcont : sgood st (fst (run_body rq st2 m file prog))) by (eapply sgood_trans; [exact G2|apply IH; exact (proj1 G2)]).
       destruct x; try exact Hcont; try (destruct catch; [exact Hcont|exact G2]). exact G2.
     + apply sgood_refl. exact HS.
+    + eapply sgood_trans; [apply sgood_sc; [apply sc_add_lazy|exact HS]|]. apply IH. eapply sinv_same_core; [apply sc_add_lazy|exact HS].
+    + pose proof (Hrq st (pdir (parse file)) t HS) as Hg. destruct (rq st (pdir (parse file)) t) as [st1 x]. cbn [fst] in Hg.
+      destruct Hg as [HS1 E1].
+      set (st2 := log_event st1 file t (outcome_of st1 x)).
+      assert (G2 : sgood st st2).
+      { split; [eapply sinv_same_core; [apply sc_log_event|exact HS1]|]. eapply ext_trans; [exact E1|apply same_core_ext, sc_log_event]. }
+      assert (Hcont : sgood st (fst (run_body rq st2 m file prog))) by (eapply sgood_trans; [exact G2|apply IH; exact (proj1 G2)]).
+      destruct x as [m'| | | |]; try exact Hcont; [|exact G2].
+      destruct (owner_file st2 m') as [f'|]; [|exact Hcont].
+      remember (run_lazies rq st2 f' (lazies_of st2 m')) as rl eqn:ERL.
+      assert (G3 : sgood st2 (fst rl)) by (rewrite ERL; apply run_lazies_sgood; exact (proj1 G2)).
+      destruct rl as [st3 oof]. cbn [fst] in G3.
+      assert (G03 : sgood st st3) by exact (sgood_trans _ _ _ G2 G3).
+      destruct oof; [exact G03|]. eapply sgood_trans; [exact G03|apply IH; exact (proj1 G03)].
 Qed.
 
 (* what loadModule(path) tells about the tree *)
@@ -397,4 +424,15 @@ Proof.
   intros Hp Hr Hnd Hwf E. pose proof (resolve_history_independent fs nat_reg fuel calls d r st' (ROk m) Hp E) as H.
   cbv zeta in H, Hwf. destruct H as (f & Ho & Hsel). exists f. split; [exact Ho|].
   rewrite Hwf in Hsel. rewrite <- (model_resolve_is_node fs d r Hr Hnd). unfold model_resolve. rewrite Hp. exact Hsel.
+Qed.
+
+(* the canonical-form premise holds for every request made from a clean directory (what parse, pjoin and pdir produce is
+   clean: Proofs/PathsCanon.v), so it can be dropped *)
+Theorem resolve_is_node_from_clean_dir fs nat_reg fuel calls d r st' m :
+  is_file_or_dir_path r = true -> rooted d = true -> no_double_nm (rev (segs d)) -> clean d ->
+  require_ fs nat_reg fuel (run_tops fs nat_reg fuel init_state calls) d r = (st', ROk m) ->
+  exists f, file_owner st' m = Some f /\ spec_resolve fs d r = SFile f.
+Proof.
+  intros Hp Hr Hnd Hc E. eapply resolve_is_node_in_every_state; try eassumption.
+  cbv zeta. apply parse_render. destruct (is_abs r); [apply clean_parse|apply clean_pjoin; exact Hc].
 Qed.
